@@ -28,6 +28,16 @@ from props import formulation_harness as fh
 INF = float("inf")
 HIGHS = fh.HIGH_COSTS
 LIMIT = 2 ** 53
+WORKERS = max(1, min(8, (os.cpu_count() or 2) - 1))
+
+
+def pmap(fn, jobs):
+    """Order-preserving map over independent, deterministic jobs in worker processes."""
+    if WORKERS <= 1 or len(jobs) < 8:
+        return [fn(j) for j in jobs]
+    from concurrent.futures import ProcessPoolExecutor
+    with ProcessPoolExecutor(max_workers=WORKERS) as ex:
+        return list(ex.map(fn, jobs, chunksize=max(1, len(jobs) // (WORKERS * 8))))
 
 
 # ----------------------------------------------------------------------------------------------------------
@@ -364,10 +374,18 @@ def json_desc(kind, desc, highs):
     return d
 
 
+def _instance_job(job):
+    kind, desc, highs = job
+    import logging
+    logging.disable(logging.CRITICAL)
+    fail, trace = instance_oracle(kind, desc, highs)
+    return fail, trace
+
+
 def sweep_instances(ctx, dist, reported):
     rng = ctx.rng
-    n_random = 200 if ctx.quick else 5000
-    n_target = 240 if ctx.quick else 6000
+    n_random = 200 if ctx.quick else 3000
+    n_target = 240 if ctx.quick else 4000
     seen = set()
     work = []
     for _ in range(n_random):
@@ -378,39 +396,42 @@ def sweep_instances(ctx, dist, reported):
     for kind, desc in fh.corner_cases():
         work.append(([kind], desc, "corner"))
     rot = 0
+    jobs, fams = [], []
     for w, (kinds, desc, fam) in enumerate(work):
         for kind in kinds:
             # every high cost is used as first value in rotation; one instance in five runs all four
             firsts = HIGHS if w % 5 == 0 else [HIGHS[rot % 4]]
             rot += 1
             for high in firsts:
-                highs = (high, rng.choice(HIGHS))
-                fail, trace, rp = instance_oracle(kind, desc, highs, want_rp=True)
-                ctx.count(evaluations=len(trace), traces=1)
-                for k, t in enumerate(trace):
-                    dist[f"{kind}/call{k + 1}/{t}"] += 1
-                dist[f"high={high}"] += 1
-                key = repr((kind, desc["nodes"], desc["arcs"], desc["routes"], desc["time_points"], desc["V"], desc["L"],
-                            desc["strict"], desc["vehicle_cap"], desc["initial_loading"]))
-                if trace and trace[0].startswith("ok+repair") and key not in seen:
-                    seen.add(key)
-                    ctx.count(nontrivial=1)
-                    ctx.sample({"family": fam, "kind": kind, "highs": list(highs), "trace": trace,
-                                "instance": fh.describe({"kind": kind, "desc": desc, "rp": None})["instance"]}, limit=4)
-                if fail is None:
-                    continue
-                sig = signature(kind, fail[0], rp)
-                if sig in reported:
-                    continue
-                reported.add(sig)
+                jobs.append((kind, desc, (high, rng.choice(HIGHS))))
+                fams.append(fam)
+    results = pmap(_instance_job, jobs)
+    for (kind, desc, highs), fam, (fail, trace) in zip(jobs, fams, results):
+        ctx.count(evaluations=len(trace), traces=1)
+        for k, t in enumerate(trace):
+            dist[f"{kind}/call{k + 1}/{t}"] += 1
+        dist[f"high={highs[0]}"] += 1
+        key = repr((kind, desc["nodes"], desc["arcs"], desc["routes"], desc["time_points"], desc["V"], desc["L"],
+                    desc["strict"], desc["vehicle_cap"], desc["initial_loading"]))
+        if trace and trace[0].startswith("ok+repair") and key not in seen:
+            seen.add(key)
+            ctx.count(nontrivial=1)
+            ctx.sample({"family": fam, "kind": kind, "highs": list(highs), "trace": trace,
+                        "instance": fh.describe({"kind": kind, "desc": desc, "rp": None})["instance"]}, limit=4)
+        if fail is None:
+            continue
+        sig = signature(kind, fail[0])
+        if sig in reported:
+            continue
+        reported.add(sig)
 
-                def fails(c, kind=kind, highs=highs, sig=sig):
-                    f, _, r2 = instance_oracle(kind, c, highs, want_rp=True)
-                    return f is not None and signature(kind, f[0], r2) == sig
-                small = fh.shrink_desc(desc, fails)
-                f2, tr2 = instance_oracle(kind, small, highs)
-                f2 = f2 or fail
-                report(ctx, sig, f2[1], dict(json_desc(kind, small, highs), trace=tr2, **f2[2]))
+        def fails(c, kind=kind, highs=highs, sig=sig):
+            f, _ = instance_oracle(kind, c, highs)
+            return f is not None and signature(kind, f[0]) == sig
+        small = fh.shrink_desc(desc, fails)
+        f2, tr2 = instance_oracle(kind, small, highs)
+        f2 = f2 or fail
+        report(ctx, sig, f2[1], dict(json_desc(kind, small, highs), trace=tr2, **f2[2]))
 
 
 # ----------------------------------------------------------------------------------------------------------
@@ -474,6 +495,14 @@ def random_maker(ns, nd, horizon, seed):
     return make
 
 
+def _mirp_job(job):
+    src, params, integer = job
+    import logging
+    logging.disable(logging.CRITICAL)
+    make = g1_maker(params["horizon"]) if src == "g1" else random_maker(params["ns"], params["nd"], params["horizon"], params["seed"])
+    return list(mirp_oracle(make, integer))
+
+
 def sweep_mirp(ctx, dist, reported):
     if ctx.quick:
         horizons = [14.5 + 1.5 * k for k in range(18)]             # 14.5 .. 40
@@ -484,26 +513,28 @@ def sweep_mirp(ctx, dist, reported):
     shapes = [(1, 1, 40), (2, 2, 50), (1, 2, 30), (2, 3, 60), (2, 1, 45)]
     jobs = []
     for h in horizons:
-        jobs.append(("g1", {"horizon": h}, g1_maker(h)))
-    for s in seeds:
-        ns, nd, hz = shapes[s % len(shapes)]
-        jobs.append(("random_mirp", {"ns": ns, "nd": nd, "horizon": hz, "seed": s}, random_maker(ns, nd, hz, s)))
-    for src, params, make in jobs:
         for integer in (False, True):
-            for kind, strict, outcome, fail in mirp_oracle(make, integer):
-                ctx.count(evaluations=1, traces=1)
-                dist[f"{src}/{kind}{'' if strict is None else ('/strict' if strict else '/non-strict')}/{outcome}"] += 1
-                if outcome == "ok" and integer:
-                    ctx.count(nontrivial=1)
-                if fail is None:
-                    continue
-                sig = f"oracle/{kind}/{fail[0]}"
-                if sig in reported:
-                    continue
-                reported.add(sig)
-                ctx.violation(sig, f"{src} {params}: {fail[1]}",
-                              dict({"source": src, "params": params, "kind": kind, "strict": strict, "integer_costs": integer,
-                                    "python": "props.c09.mirp_oracle(maker, integer)"}, **fail[2]), True)
+            jobs.append(("g1", {"horizon": h}, integer))
+    for s_ in seeds:
+        ns, nd, hz = shapes[s_ % len(shapes)]
+        for integer in (False, True):
+            jobs.append(("random_mirp", {"ns": ns, "nd": nd, "horizon": hz, "seed": s_}, integer))
+    results = pmap(_mirp_job, jobs)
+    for (src, params, integer), res in zip(jobs, results):
+        for kind, strict, outcome, fail in res:
+            ctx.count(evaluations=1, traces=1)
+            dist[f"{src}/{kind}{'' if strict is None else ('/strict' if strict else '/non-strict')}/{outcome}"] += 1
+            if outcome == "ok" and integer:
+                ctx.count(nontrivial=1)
+            if fail is None:
+                continue
+            sig = f"oracle/{kind}/{fail[0]}"
+            if sig in reported:
+                continue
+            reported.add(sig)
+            ctx.violation(sig, f"{src} {params}: {fail[1]}",
+                          dict({"source": src, "params": params, "kind": kind, "strict": strict, "integer_costs": integer,
+                                "python": "props.c09.mirp_oracle(maker, integer)"}, **fail[2]), True)
 
 
 # ----------------------------------------------------------------------------------------------------------
@@ -550,13 +581,15 @@ def graph_obs_lit(desc, rp):
 
 
 class patched_choice:
-    """np.random.choice replaced by a deterministic draw: the first / the last key."""
-    def __init__(self, first):
-        self.first = first
+    """np.random.choice replaced by a deterministic draw: 0 the first key, 1 the last key, 2 the mode of the
+    distribution it is given (the first key of maximal probability = the first key of minimal value)."""
+    def __init__(self, code):
+        self.code = code
 
     def __enter__(self):
         self.orig = np.random.choice
-        np.random.choice = (lambda keys, p=None: keys[0]) if self.first else (lambda keys, p=None: keys[-1])
+        np.random.choice = [lambda keys, p=None: keys[0], lambda keys, p=None: keys[-1],
+                            lambda keys, p=None: keys[int(np.argmax(p))]][self.code]
 
     def __exit__(self, *a):
         np.random.choice = self.orig
@@ -582,7 +615,7 @@ def path_case(desc, first, highs):
             obs.append(lit.ok(lit.tup(x, names, nodes, arcs, routes, costs)))
             outs.append("ok")
     rs = lit.lst([lit.lst([f"inl {lit.nat(name_code(desc, nm))}" for nm in r]) for r in desc["routes"]])
-    term = lit.tup(gops_lit(desc), lit.z(desc["vehicle_cap"]), lit.z(desc["initial_loading"]), rs, lit.boolean(first),
+    term = lit.tup(gops_lit(desc), lit.z(desc["vehicle_cap"]), lit.z(desc["initial_loading"]), rs, lit.nat(first),
                    lit.lst([lit.z(h) for h in highs]), lit.boolean(hyp), lit.lst(obs))
     outs.append("inside the hypotheses" if hyp else "outside the hypotheses")
     return term, outs
@@ -592,7 +625,7 @@ def correspondence_path(ctx, dist, descs):
     rng = ctx.rng
     terms, meta = [], []
     for desc in descs:
-        first = rng.random() < 0.5
+        first = rng.choice([0, 1, 2, 2])
         highs = [rng.choice(HIGHS), rng.choice(HIGHS)]
         try:
             term, outs = path_case(desc, first, highs)
@@ -615,11 +648,11 @@ def correspondence_path(ctx, dist, descs):
             report(ctx, signature("path", fail[0]), fail[1], dict(json_desc("path", desc, highs), trace=trace, **fail[2]))
             continue
         model = ctx.coq_eval(HEADER, "match " + terms[idx] + " with (ops, cap, init, rs, fst_, highs, _, _) => map observe9 (mf_path_iter "
-                             "(if fst_ then choose_first else choose_last) harness_dum (pstate_of ops cap init rs) highs) end")
+                             "(oracle_of fst_) harness_dum (pstate_of ops cap init rs) highs) end")
         ctx.violation("correspondence/path/invocation" + "+".join(str(t) for t in tags),
                       f"model mf_path and PathBasedRoutingProblem.make_feasible disagree (tags {tags}: k = observation after invocation k, "
                       "9 = number of invocations, 8 = the harness and the model disagree on whether the hypotheses of C09_total_path hold); the property oracle found no failing input on this instance",
-                      dict(json_desc("path", desc, highs), correspondence="Heur.check_pcase9", draw="first key" if first else "last key",
+                      dict(json_desc("path", desc, highs), correspondence="Heur.check_pcase9", draw=["first key", "last key", "first key of minimal value"][first],
                            implementation_outcomes=outs, model=model[-3000:]), False)
 
 
@@ -766,7 +799,7 @@ def run(ctx):
     sweep_instances(ctx, dist, reported)
     sweep_mirp(ctx, dist, reported)
     rng = ctx.rng
-    n_corr = 150 if ctx.quick else 3000
+    n_corr = 150 if ctx.quick else 1500
     descs = []
     for k in range(n_corr):
         descs.append(targeted(rng)[1] if k % 2 else fh.random_instance(rng))
